@@ -1311,6 +1311,11 @@ class DiameterMessage:
             for key in self.__dict__.keys():
                 if avp_key in key:
                     index += 1
+
+            #: A previous pop may have freed a lower index: never reuse a 
+            #: name which is still bound to another DiameterAVP object.
+            while f"{avp_key}__{index}" in self.__dict__:
+                index += 1
             avp_key = f"{avp_key}__{index}"
 
         #: Updates DiameterMessage attributes.
